@@ -158,7 +158,9 @@ struct Node
     Node(const Node& o) : t(o.t) { if (g_track) { oid = tl_next_oid++; vlog("v_copy", o.oid, oid); } }
     Node(Node&& o) VH_NOEXCEPT : t(std::move(o.t)) { if (g_track) { oid = tl_next_oid++; vlog("v_move", o.oid, oid); } }
     Node& operator=(const Node& o) { t = o.t; if (g_track) vlog("v_cassign", o.oid, oid); return *this; }
+#ifndef VH_NO_MOVE_ASSIGN
     Node& operator=(Node&& o) VH_NOEXCEPT { t = std::move(o.t); if (g_track) vlog("v_massign", o.oid, oid); return *this; }
+#endif      // (VH_NO_MOVE_ASSIGN: a type that can be move CONSTRUCTED but only copy ASSIGNED - assigning to it duplicates)
     ~Node() { if (g_track) vlog("v_dtor", oid, -1); }
     // rules WITHOUT a functor construct the left-side value from the right-side values: LValueType(values...).
     // The variadic constructor observes that call (a unit rule over a nonterminal is a plain move and has no event);
@@ -775,8 +777,12 @@ void serve_one(Make&& make, const std::string& gid, const std::vector<Job>& jobs
     dump_parser(*p, gid, o);
     o.back() = '}'; o += "\n";
     {
-        std::ostringstream ds; p->write_diag_str(ds);
-        o += "{\"diag\":"; jstr(o, ds.str()); o += ",\"g\":"; jstr(o, gid); o += "}\n";
+        std::ostringstream ds;
+        std::string dthrew;
+        try { p->write_diag_str(ds); }
+        catch (const std::exception& e) { dthrew = e.what(); }       // (the bounds hook: the diagnostics overran one of their own buffers)
+        if (dthrew.empty()) { o += "{\"diag\":"; jstr(o, ds.str()); o += ",\"g\":"; jstr(o, gid); o += "}\n"; }
+        else { o += "{\"diag_threw\":"; jstr(o, dthrew); o += ",\"g\":"; jstr(o, gid); o += "}\n"; }
     }
     fwrite(o.data(), 1, o.size(), out);
     // a table with a reduce/reduce cell has documented-undefined behaviour (the cell's rule is never set): never run it
